@@ -84,10 +84,18 @@ def generate(seed, tier):
                     if t[0] and t[0][-1].isdigit():
                         t[0] = t[0] + "a"
     return {"tb": tb, "fmt": fmt, "enc": enc, "mode": mode, "path": path, "opts": opts,
-            "prior": prior,
+            "prior": prior, "prefix": rng.choice(["g", "g", "g.bin", "negra.train", "gram.v2"]),
+            "strip_newline": rng.random() < 0.3,
             "platform": platform, "reread": rng.random() < 0.6, "shuffle": rng.randrange(1 << 30),
             "layout": rng.randrange(1 << 30), "io_seed": rng.randrange(1 << 30),
             "src": rng.choice(["export", "tigerxml"])}
+
+
+OUT = "/sim/w/out/g"          # replaced per scenario by out_prefix(sc)
+
+
+def out_prefix(sc):
+    return "/sim/w/out/" + sc.get("prefix", "g")
 
 
 FILES = {"pmcfg": [".pmcfg", ".lex"], "rcg": [".rcg", ".lex"],
@@ -119,7 +127,7 @@ def api_ops(sc, write=True):
         var = "b"
     ops.append(["gdump", var])
     if write:
-        ops.append(["gwrite", sc["fmt"], var, "/sim/w/out/g", sc["enc"], sc["opts"]])
+        ops.append(["gwrite", sc["fmt"], var, OUT, sc["enc"], sc["opts"]])
     return ops
 
 
@@ -128,7 +136,7 @@ def cli_argv(sc):
     argv = []
     if sc["mode"] is not None:
         gramtype = "leftright" if sc["mode"]["reordering"] == "none" else "optimal"
-    argv = ["grammar", "/sim/w/tb.src", "/sim/w/out/g", gramtype, "--src-format", sc["src"],
+    argv = ["grammar", "/sim/w/tb.src", OUT, gramtype, "--src-format", sc["src"],
             "--dest-format", sc["fmt"], "--dest-enc", sc["enc"], "--src-opts", "quiet"]
     if sc["mode"] is not None and sc["mode"]["markov"] is not None:
         m = sc["mode"]["markov"]
@@ -144,7 +152,7 @@ def decode_all(sc, files, st):
     fmt, enc = sc["fmt"], sc["enc"]
     texts = {}
     for ext in FILES[fmt]:
-        p = "/sim/w/out/g" + ext
+        p = OUT + ext
         if p in files:
             try:
                 texts[ext] = files[p].decode(enc)
@@ -154,8 +162,10 @@ def decode_all(sc, files, st):
 
 
 def execute(sc, sim):
+    global OUT
+    OUT = out_prefix(sc)          # one scenario at a time per worker
     st = cm.Stats()
-    st.declare("earlier_grammars_written_in_same_process", "rule_count_above_1", "ambiguous_word", "non_ascii_word", "fanout_above_1",
+    st.declare("reread_without_final_newline", "earlier_grammars_written_in_same_process", "rule_count_above_1", "ambiguous_word", "non_ascii_word", "fanout_above_1",
                "lex_in_grammar", "cli_path", "own_reader_reread", "grammar_cmd_from_rcg",
                "lopar_refuses_non_cf", "lopar_start_2plus_symbols", "second_hash_seed",
                "shared_linearization_sequence", "other_platform_refused")
@@ -186,7 +196,7 @@ def execute(sc, sim):
                   "dest": "/sim/w/prior/p%d" % j, "enc": sc["enc"], "opts": sc["opts"]}
                  for j, tb in enumerate(sc["prior"])]
         items.append({"tb": sc["tb"], "shuffle": sc["shuffle"], "mode": sc["mode"],
-                      "fmt": sc["fmt"], "dest": "/sim/w/out/g", "enc": sc["enc"],
+                      "fmt": sc["fmt"], "dest": OUT, "enc": sc["enc"],
                       "opts": sc["opts"]})
         obs = sim.run(dict(base, sessions=[{"id": "s", "ops": [["gbatch", items]]}]))
         rec = obs["sessions"]["s"][0]
@@ -251,17 +261,21 @@ def execute(sc, sim):
         if v:
             return done(sc, st, [v])
         for ext in (".gram", ".lex"):
-            a = obs["files"].get("/sim/w/out/g" + ext)
-            b = obs2["files"].get("/sim/w/out/g" + ext)
+            a = obs["files"].get(OUT + ext)
+            b = obs2["files"].get(OUT + ext)
             if a != b:
                 viols.append(cm.viol("C09/lopar/hash-seed-dependent-output/%s" % ext))
                 return done(sc, st, viols)
     # ---- own reader and `grammar --src-format rcg`
     if fmt == "rcg" and "lex_in_grammar" not in sc["opts"] and sc["reread"]:
         keep = dict((p, d) for p, d in files.items() if p.startswith("/sim/w/out/"))
+        if sc.get("strip_newline") and enc != "utf-16":
+            # the same records without the final line terminator
+            keep = dict((p, d[:-1] if d.endswith(b"\n") else d) for p, d in keep.items())
+            st.probe("reread_without_final_newline")
         st.probe("own_reader_reread")
         obs3 = sim.run(dict(base, files=keep, sessions=[{"id": "r", "ops": [
-            ["gread", "rcg", "r", "/sim/w/out/g", enc, {}], ["gdump", "r"]]}]))
+            ["gread", "rcg", "r", OUT, enc, {}], ["gdump", "r"]]}]))
         st.add_obs(obs3)
         r3 = obs3["sessions"]["r"]
         bad = [r for r in r3 if "exc" in r]
@@ -280,7 +294,7 @@ def execute(sc, sim):
         # the grammar command fed with the grammar files
         st.probe("grammar_cmd_from_rcg")
         fmt2 = random.Random(sc["io_seed"]).choice(["pmcfg", "rcg"])
-        argv = ["grammar", "/sim/w/out/g", "/sim/w/out/h", "treebank", "--src-format", "rcg",
+        argv = ["grammar", OUT, "/sim/w/out/h", "treebank", "--src-format", "rcg",
                 "--src-enc", enc, "--dest-format", fmt2, "--dest-enc", enc]
         obs4 = sim.run(dict(base, files=keep, sessions=[{"id": "c", "ops": [["cli", argv]]}]))
         st.add_obs(obs4)
@@ -290,8 +304,8 @@ def execute(sc, sim):
                                  % (r4.get("exc") or "exit"), msg=r4.get("msg"), enc=enc))
             return done(sc, st, viols)
         sc2 = dict(sc, fmt=fmt2, opts={})
-        files4 = dict((p.replace("/out/h", "/out/g"), d) for p, d in obs4["files"].items()
-                      if p.startswith("/sim/w/out/h"))
+        files4 = dict((OUT + p[len("/sim/w/out/h"):], d) for p, d in obs4["files"].items()
+                      if p.startswith("/sim/w/out/h."))
         v = judge_files(sc2, {"files": files4, "writelog": [], "unclosed_at_return": []},
                         memflat, memlex, st, tag="re-emitted", history=False)
         if v:
@@ -308,17 +322,17 @@ def judge_files(sc, obs, memflat, memlex, st, tag="", history=True):
     if lig:
         want.remove(".lex")
     have = sorted(p for p in files if p.startswith("/sim/w/out/"))
-    missing = [e for e in want if "/sim/w/out/g" + e not in files]
+    missing = [e for e in want if OUT + e not in files]
     if missing:
         return cm.viol("C09/file-set/missing/%s" % fmt, missing=missing, have=have, tag=tag)
-    extra = [p for p in have if p not in ["/sim/w/out/g" + e for e in want]]
+    extra = [p for p in have if p not in [OUT + e for e in want]]
     if extra:
         return cm.viol("C09/file-set/unexpected-file/%s" % fmt, extra=extra, tag=tag)
     if history:
         if obs.get("unclosed_at_return"):
             return cm.viol("C09/file-set/left-open/%s" % fmt, files=obs["unclosed_at_return"])
         touched = sorted(set(p for (_, p, _, _) in obs.get("writelog", [])))
-        other = [p for p in touched if not p.startswith("/sim/w/out/g.")
+        other = [p for p in touched if not p.startswith(OUT + ".")
                  and not p.startswith("/sim/w/prior/")]
         if other:
             return cm.viol("C09/file-set/foreign-file-written/%s" % fmt, files=other)
@@ -400,6 +414,14 @@ def shrink_candidates(sc):
     if sc.get("prior"):
         c = model.clone(sc)
         c["prior"] = sc["prior"][:-1]
+        yield c
+    if sc.get("prefix", "g") != "g":
+        c = model.clone(sc)
+        c["prefix"] = "g"
+        yield c
+    if sc.get("strip_newline"):
+        c = model.clone(sc)
+        c["strip_newline"] = False
         yield c
     if sc["path"] == "cli":
         c = model.clone(sc)
